@@ -235,6 +235,22 @@ pub fn c14(ctx: &Ctx, subj: &dyn DynSubject, ty: &Ty, rep: &mut Report) {
             if foreign > 0 {
                 return Err(Fail::new("read-frees-foreign", format!("reader failing after {} bytes: {} foreign frees", k, foreign)).env(json!({"k": k})));
             }
+            // the same position with a reader that fails once and would deliver the rest afterwards (followed by
+            // other data on the same stream): the bytes consumed before the failure are gone, so the only sound
+            // outcome is a read error; a value can only come from re-reading at a shifted position
+            if k % 3 == 0 && k < len {
+                let kind = if k % 2 == 0 { io::ErrorKind::WouldBlock } else { io::ErrorKind::TimedOut };
+                let mut longer = bytes.clone();
+                longer.extend_from_slice(&bytes);
+                let mut rd = FaultyReader::new(&longer, ReadSchedule::FailOnceAt { k, kind });
+                log.extra_evals += 1;
+                match guard(|| subj.full(&mut rd)) {
+                    Ok(Err(deser::Error::ReadError)) => {}
+                    Ok(Err(e)) => return Err(Fail::new(&format!("read-once-fault-error:{}", err_name(&e)), format!("reader failing once ({:?}) after {} bytes: {:?} instead of ReadError", kind, k, e)).env(json!({"k": k, "once": true}))),
+                    Ok(Ok(x)) => return Err(Fail::new("read-once-fault-value", format!("reader failing once ({:?}) after {} of {} bytes, yet a value was returned: {}", kind, k, len, x.show())).env(json!({"k": k, "once": true}))),
+                    Err(p) => return Err(Fail::new(&format!("read-once-fault-panic:{}", panic_class(&p)), format!("reader failing once ({:?}) after {} bytes: panicked: {}", kind, k, p)).env(json!({"k": k, "once": true}))),
+                }
+            }
         }
         Ok(())
     });
